@@ -77,8 +77,9 @@ type ctx = {
   mutable srefs : int list;           (* reversed; node index or -1 *)
   mutable crows : float cRow list;          (* constraint rows, in order *)
   mutable srows : float sRow list;
+  mutable act : bool list;            (* actuation map *)
 }
-let new_ctx () = { m = model0 fo; ids = []; used_names = []; sp = spec0; srefs = []; crows = []; srows = [] }
+let new_ctx () = { m = model0 fo; ids = []; used_names = []; sp = spec0; srefs = []; crows = []; srows = []; act = [] }
 let nth_rev l k = List.nth (List.rev l) k
 let ref_id c s =
   if s = "base" then 0 else if s = "prev" then int_of_n c.m.prev_id
@@ -250,6 +251,30 @@ let solve_consistent (al : float list list) (bl : float list) : float list =
   for i = 0 to n - 1 do y.(colp.(i)) <- z.(i) done;
   Array.to_list y
 
+(* numerical rank by elimination with full pivoting; pivots below 1e-9 * max|A| count as zero *)
+let rank_of (a0 : float list list) : int =
+  let r = List.length a0 in
+  if r = 0 then 0 else
+  let cdim = List.length (List.hd a0) in
+  if cdim = 0 then 0 else
+  let a = Array.of_list (List.map Array.of_list a0) in
+  let amax = Array.fold_left (fun acc row -> Array.fold_left (fun acc x -> max acc (abs_float x)) acc row) 0. a in
+  let thr = 1e-9 *. amax in
+  let rank = ref 0 in
+  (try for k = 0 to (min r cdim) - 1 do
+      let best = ref (-1.) and pi = ref k and pj = ref k in
+      for i = k to r - 1 do for j = k to cdim - 1 do
+          if abs_float a.(i).(j) > !best then (best := abs_float a.(i).(j); pi := i; pj := j) done done;
+      if !best <= thr then raise Exit;
+      let tmp = a.(k) in a.(k) <- a.(!pi); a.(!pi) <- tmp;
+      for i = 0 to r - 1 do let x = a.(i).(k) in a.(i).(k) <- a.(i).(!pj); a.(i).(!pj) <- x done;
+      for i = k + 1 to r - 1 do
+        let d = a.(i).(k) /. a.(k).(k) in
+        for j = k to cdim - 1 do a.(i).(j) <- a.(i).(j) -. d *. a.(k).(j) done done;
+      rank := k + 1
+    done with Exit -> ());
+  !rank
+
 (* ---------- constraint commands ---------- *)
 let baum_of (r : float cRow) err errd = match r with
   | RLoop (_, _, _, _, _, true, ts) -> let k = 1. /. ts in -. 2. *. k *. errd -. k *. k *. err
@@ -336,6 +361,57 @@ let cons_cmd c cmd t seq =
          let r2 = List.map2 (fun r j -> j.j2 -. baum_of r (match r with RContact _ -> 0. | _ -> j.j0) j.j1) c.crows js in
          line "c" seq "fdc_constraint_acc" (fun () -> od (maxabs r2); od (maxabs (List.map (fun j -> j.j2) js) +. maxabs qdd)))
      | None -> line "o" seq "qdd" (fun () -> os "singular"))
+  | "actuation" ->
+    let k = integer t in c.act <- List.init k (fun _ -> integer t <> 0)
+  | "idc" ->
+    let meth = str t in
+    let feas = ref false and feasacc = ref false in
+    while t.t.(t.i) = "feas" || t.t.(t.i) = "feasacc" do (if str t = "feas" then feas := true else feasacc := true) done;
+    let q = vec t in let qd0 = vec t in let qdes0 = vec t in let fe = fext t in
+    let qd = if !feas then project q qd0 else qd0 in
+    let nc = List.length c.crows in
+    let qdes = if !feasacc then begin
+        let ((_, sy), _) = forward_dynamics_constraints fo m m.ws q qd (zeros n_qd) c.crows fe in
+        let g = sy.cG in
+        let a = mmmul fo g (mTn fo g nn) (nat_of_int nc) in
+        let y = solve_consistent a (List.map2 (fun x y -> x -. y) (mvmul fo g qdes0) sy.cgamma) in
+        List.map2 (fun x d -> x -. d) qdes0 (mTvmul fo g nn y) end else qdes0 in
+    let relaxed = (meth <> "exact") in
+    let ((w, sy), sol) = inverse_dynamics_constraints fo m m.ws q qd qdes c.crows c.act relaxed fe in
+    setw c w;
+    let nu = List.length (List.filter (fun b -> not b) c.act) in
+    (match sol with
+     | Some ((qdd, tau), lam) ->
+       line "o" seq "qdd" (fun () -> ovec qdd);
+       (* with more constraint rows than unactuated coordinates the multipliers (and hence tau) are not unique *)
+       if (not relaxed) && nc <> nu then (line "o" seq "tauc" (fun () -> os "singular"); line "o" seq "force" (fun () -> os "singular"))
+       else (line "o" seq "tauc" (fun () -> ovec tau); line "o" seq "force" (fun () -> ovec lam));
+       line "i" seq "cond" (fun () -> od (max (cond_est sy.cH) (cond_est (idc_rows fo sy.cH sy.cG nn (nat_of_int nc) c.act relaxed))));
+       spec_try (fun () ->
+         (* property residuals on the implementation's results against the L3 specification *)
+         let qdd = impl_or seq "qdd" qdd and tau = impl_or seq "tauc" tau and lam = impl_or seq "force" lam in
+         let tn = spec_tau c m.gravity q qd qdd fe in
+         let g = spec_G q in
+         let gtl = mTvmul fo g nn lam in
+         let res = List.map2 (fun a b -> a -. b) (List.map2 (fun a b -> a -. b) tn tau) gtl in
+         line "c" seq "idc_motion" (fun () -> od (maxabs res); od (maxabs (tau @ tn @ gtl)));
+         let js = jets q qd qdd in
+         let r2 = List.map2 (fun r j -> j.j2 -. baum_of r (match r with RContact _ -> 0. | _ -> j.j0) j.j1) c.crows js in
+         line "c" seq "idc_constraint_acc" (fun () -> od (maxabs r2); od (maxabs (List.map (fun j -> j.j2) js) +. maxabs qdd));
+         let un = List.filter_map (fun x -> x) (List.map2 (fun a tv -> if a then None else Some tv) c.act tau) in
+         line "c" seq "idc_unactuated_tau" (fun () -> od (maxabs un); od (maxabs tau));
+         if not relaxed then begin
+           let da = List.filter_map (fun x -> x) (List.map2 (fun a (x, y) -> if a then Some (x -. y) else None) c.act (List.combine qdd qdes)) in
+           line "c" seq "idc_actuated_acc" (fun () -> od (maxabs da); od (maxabs (qdd @ qdes))) end)
+     | None -> line "o" seq "qdd" (fun () -> os "singular"))
+  | "fullact" ->
+    let q = vec t in let qd = vec t in let fe = fext t in
+    let ((w, sy), _) = forward_dynamics_constraints fo m m.ws q qd (zeros n_qd) c.crows fe in
+    setw c w;
+    let nu = List.length (List.filter (fun b -> not b) c.act) in
+    let r = rank_of (gpt sy.cG c.act) in
+    line "o" seq "fullact" (fun () -> ou (if r = nu then 1 else 0));
+    spec_try (fun () -> line "s" seq "fullact" (fun () -> ou (if rank_of (gpt (spec_G q) c.act) = nu then 1 else 0)))
   | "imp" ->
     let _meth = str t in let q = vec t in let qdm = vec t in let vp = vec t in
     let (w, sol) = constraint_impulses fo m m.ws q qdm c.crows vp in
@@ -651,7 +727,7 @@ let run_line c (l : string) seq =
         List.iter (fun ax ->
           c.crows <- c.crows @ [RLoop (n_of_int idp, n_of_int ids, xp, xs, ax, baum, ts)];
           (try c.srows <- c.srows @ [SLoop (ref_node c rp, ref_node c rsn, xp, xs, ax)] with Not_found -> ())) axs
-      | "cjac" | "cerr" | "cverr" | "csys" | "fdc" | "imp" -> cons_cmd c cmd t seq
+      | "cjac" | "cerr" | "cverr" | "csys" | "fdc" | "imp" | "actuation" | "idc" | "fullact" -> cons_cmd c cmd t seq
       | _ -> if not (!ext_cmd c cmd t seq) then line "o" seq "unknown" (fun () -> os cmd)
     with Failure _ | Invalid_argument _ | Not_found -> line "o" seq "status" (fun () -> os "exception")
   end
